@@ -40,6 +40,7 @@ def handle : Handler := fun op args =>
       withArgs (do let m ← tok; let sd ← pNat; let d ← pNat; let reg ← pRats; let n ← pInt; let fid ← pNat; let p ← pRats
                    pure (m, sd, d, reg, n, fid, p)) args
       fun (m, sd, d, reg, n, fid, p) =>
+      if integrateMCRejects reg.length n (m == "Vegas") then "err" else
       if reg.length ≠ 2 * d ∨ d = 0 ∨ n ≤ 0 ∨ n > 2500 then "undef" else
       match fam fid d p with
       | none => "undef"
